@@ -5,6 +5,7 @@ package main
 // fidelity facts of the grammar), and the grammar parts of C10.
 
 import (
+	"golang.org/x/tools/go/ssa"
 	"fmt"
 	"go/ast"
 	"go/token"
@@ -448,13 +449,25 @@ func (ga *GA) opSites() []opSite {
 						site.op = c.Name()
 					}
 				}
-				if ta, ok := v.(*ast.TypeAssertExpr); ok {
-					v = ast.Unparen(ta.X)
-				}
-				if id, ok := v.(*ast.Ident); ok {
+				// the value, through type assertions and single-assignment locals, down to a label parameter
+				for i := 0; i < 4; i++ {
+					if ta, ok := v.(*ast.TypeAssertExpr); ok {
+						v = ast.Unparen(ta.X)
+						continue
+					}
+					id, ok := v.(*ast.Ident)
+					if !ok {
+						break
+					}
 					if pn, ok := params[info.Uses[id]]; ok {
 						site.fields[fname] = pn
+						break
 					}
+					nv := resolveLocal(info, fd.Body, v)
+					if nv == v {
+						break
+					}
+					v = ast.Unparen(nv)
 				}
 			}
 			if site.op != "" && (site.typ == "BinaryExpression" || site.typ == "UnaryExpression") {
@@ -764,6 +777,8 @@ func checkDoubleNegation(r *Run, ga *GA) {
 	c, _ := prog.Grammar.Types.Scope().Lookup("UnaryOpNot").(*types.Const)
 	// case 1: the operand is itself a `not` node: the action must return that node's operand
 	ps := NewPathSim(prog)
+	ps.Inline = func(c *ssa.Function) bool { return prog.actionHelper(c, 0) }
+	ps.IfaceAssertIdentity = true
 	ps.Seed = func(st *pstate) {
 		st.dyn[pOperand.Key()] = ptrT
 		if c != nil {
@@ -799,6 +814,8 @@ func checkDoubleNegation(r *Run, ga *GA) {
 			dyn = types.NewPointer(ot)
 		}
 		ps2 := NewPathSim(prog)
+		ps2.Inline = func(c *ssa.Function) bool { return prog.actionHelper(c, 0) }
+		ps2.IfaceAssertIdentity = true
 		ps2.Seed = func(st *pstate) { st.dyn[pOperand.Key()] = dyn }
 		okWrap, m := true, 0
 		for _, sm := range ps2.Run(fn) {
